@@ -22,6 +22,7 @@ type vfGWScenario struct {
 	DevMax    int                  `json:"dev_max,omitempty"`    // max choice points per event considered for deviation
 	DevEvents []string             `json:"dev_events,omitempty"` // event name prefixes whose choices may deviate
 	Leaf      []string             `json:"leaf,omitempty"`       // events applied at every state, never expanded
+	MaxSubs   int                  `json:"max_subs,omitempty"`   // subscriptions per topic the alphabet may hold (default 1)
 }
 
 type vfGWOracle func(in *vfGWInst, ev string, pre, post *vfSnap)
@@ -102,7 +103,13 @@ func (in *vfGWInst) Enabled() []string {
 		case "outreset", "outclose":
 			ok = g.conn[f[1]] && g.fake(f[1]).outAlive()
 		case "join":
-			ok = len(g.subs[f[1]]) == 0
+			max := in.sc.MaxSubs
+			if max == 0 {
+				max = 1
+			}
+			ok = len(g.subs[f[1]]) < max
+		case "close":
+			_, ok = g.topics[f[1]]
 		case "leave":
 			ok = len(g.subs[f[1]]) > 0
 		case "relay":
